@@ -100,6 +100,10 @@ func fmbScen(c *Ctx) {
 		}
 	}
 	pool = append(pool, dg{world.Digest(world.EmptySha256, 0), true, true, "empty"})
+	// the one hash a server special-cases, with a size that is not the empty
+	// blob's: such a blob cannot exist, so it is absent (added after seeded
+	// change C10d)
+	pool = append(pool, dg{world.Digest(world.EmptySha256, []int64{1, 7, 4096}[r.Intn(3)]), false, true, "empty-hash-nonzero-size"})
 	nCalls := 1 + r.Intn(4)
 	type call struct{ idx []int }
 	var calls []call
